@@ -202,6 +202,45 @@ func C13(e *core.Env) {
 			res.Violate("impl-violates-property", "a placeholder whose prefix is bound to "+fmt.Sprintf("%q", ns)+" is not replaced by the node's value", replay)
 		}
 	}
+	// the message of a validation next to a Rego constraint that sets its own message ($message): each result shows the text
+	// that belongs to the rule that produced it
+	for vi, shape := range []string{"two-properties", "and", "else"} {
+		regoC := "rego: |\n              $message = \"custom: a must be x\"\n              $result = ($node == [\"x\"])\n"
+		body := ""
+		switch shape {
+		case "two-properties":
+			body = "    propertyConstraints:\n      ex.a:\n        " + strings.ReplaceAll(regoC, "              ", "          ") + "      ex.b:\n        minCount: 1\n"
+		case "and":
+			body = "    and:\n      - propertyConstraints:\n          ex.a:\n            " + regoC + "      - propertyConstraints:\n          ex.b:\n            minCount: 1\n"
+		case "else":
+			body = "    if:\n      propertyConstraints:\n        ex.c:\n          minCount: 1\n    then:\n      propertyConstraints:\n        ex.a:\n          " + strings.ReplaceAll(regoC, "              ", "            ") + "    else:\n      propertyConstraints:\n        ex.b:\n          minCount: 1\n"
+		}
+		profile := header("Rego message") + "violation:\n  - v\nvalidations:\n  v:\n    targetClass: ex.T\n    message: " + yq("the plain message of v, 100%") + "\n" + body
+		data := `{"@graph":[{"@id":"http://example.org/d#noB","@type":"http://example.org/ns#T","http://example.org/ns#a":"x"},{"@id":"http://example.org/d#badA","@type":"http://example.org/ns#T","http://example.org/ns#a":"y","http://example.org/ns#b":"b","http://example.org/ns#c":"c"}]}`
+		out, err := pkg.Validate(profile, data, false, nil)
+		replay := map[string]any{"position": "message next to a Rego constraint with $message (" + shape + ")", "profile": profile, "data": data}
+		res.Case(fmt.Sprintf("rego-message|%d", vi), true)
+		res.Count("position=next-to-rego-message")
+		if err != nil {
+			replay["error"] = core.Trunc(err.Error(), 1200)
+			res.Violate("impl-violates-property", "a validation whose message stands next to a Rego constraint that sets $message does not validate: "+core.Trunc(err.Error(), 160), replay)
+			continue
+		}
+		rep, perr := ParseReport(out)
+		if perr != nil {
+			continue
+		}
+		for _, r := range rep.Results {
+			want := "the plain message of v, 100%"
+			if strings.Contains(fmt.Sprint(r.Raw["trace"]), "component:rego") {
+				want = "custom: a must be x" // the result of the Rego rule
+			}
+			if r.Message != want {
+				replay["focus"], replay["expected_resultMessage"], replay["actual_resultMessage"] = r.Focus, want, r.Message
+				res.Violate("impl-violates-property", "a result does not show the message of the rule that produced it", replay)
+			}
+		}
+	}
 	// values of in / containsAll / containsSome lists: the text is data. For each string s a node holding exactly s must
 	// pass `in: [s]`, `containsAll: [s]`, `containsSome: [s]` and a node holding s~ must fail all three.
 	kinds := []string{"in", "containsAll", "containsSome"}
